@@ -44,6 +44,16 @@ class C01System(BuilderSystem):
 
     # ---- alphabet ----------------------------------------------------
     def ops(self, st):
+        if getattr(self, "dynamic_dp", None):
+            # the precision is changed on the live formatter between motion calls; absolute mode only, so that every axis
+            # carries the rounding of the one word that last mentioned it
+            a, b, c = self.values
+            ops = [["format.set_decimal_places", [d]] for d in self.dynamic_dp]
+            for kind in ("move", "rapid", "move_absolute"):
+                for sh in ({"x": b}, {"x": c}, {"y": b, "z": c}, {"x": b, "y": b, "z": b}):
+                    ops.append([kind, [], sh])
+            ops += [["set_axis", [], {"x": b}], ["set_axis", [], {"z": c}], ["auto_home", [], {}]]
+            return ops
         a, b, c = self.values
         shapes = [{"x": b}, {"x": c}, {"y": b}, {"z": a}, {"x": a, "z": c},
                   {"x": b, "y": c, "z": b}, {"F": 100}]
@@ -143,6 +153,16 @@ class C01System(BuilderSystem):
             problems.append(("distance-mode-mismatch",
                              f"builder reports relative={modes}, interpreter relative={m.relative}"))
         unit = 0.5 * 10 ** (-self.dp)
+        per_axis = None
+        if getattr(self, "dynamic_dp", None):
+            if not hasattr(st, "axis_unit"):
+                st.axis_unit, st.dp_now = {}, self.dp
+            if op[0] == "format.set_decimal_places" and exc is None:
+                st.dp_now = op[1][0]
+            for info in st.last_infos:
+                for ax in info["axes"]:
+                    st.axis_unit[ax] = 0.5 * 10 ** (-st.dp_now)
+            per_axis = st.axis_unit
         positions = [("position", g.position)]
         if not self.is_core:
             positions.append(("state.position", g.state.position))
@@ -150,6 +170,8 @@ class C01System(BuilderSystem):
             if not m.known[a]:
                 continue
             budget = (m.rel_steps[a] + 1) * unit * 1.0000001 + 1e-9
+            if per_axis is not None:
+                budget = per_axis.get(a, unit) * 1.0000001 + 1e-9
             for label, pos in positions:
                 v = pos[i]
                 if v is None:
@@ -171,6 +193,7 @@ class C01System(BuilderSystem):
             m.relative,
             tuple(st.ctxinfo),
             None if self.is_core else (str(g.state.extrusion_mode), str(g.state.length_units)),
+            (getattr(st, "dp_now", None), tuple(sorted(getattr(st, "axis_unit", {}).items()))),
         )
 
     def outcome(self, st):
@@ -183,6 +206,11 @@ def passive_hook(origin, target, params, state):
 
 def hooked(system):
     system.hooked = True
+    return system
+
+
+def precision_changes(system, places):
+    system.dynamic_dp = places
     return system
 
 
@@ -205,6 +233,7 @@ def systems(tier):
             ("builder-dp12", C01System("builder-dp12", 12, (0, 0.123456789012, -2.000000123456), tracers=True), 2, None),
             ("builder-debug-logging", debug(C01System("builder-debug-logging", 5, exact)), 2, None),
             ("builder-passive-hook", hooked(C01System("builder-passive-hook", 5, exact)), 2, None),
+            ("builder-precision-changed-at-run-time", precision_changes(C01System("builder-precision-changed-at-run-time", 2, (0, 12.3456, -2.71828), tracers=False), (5, 2, 0)), 4, None),
         ]
     return [
         ("builder-dp0-integers", C01System("builder-dp0-integers", 0, (0, 120, -10), tracers=True), 3, None),
@@ -217,6 +246,7 @@ def systems(tier):
         ("core-dp5", C01System("core-dp5", 5, exact, cls=GCodeCore), 5, None),
         ("builder-debug-logging", debug(C01System("builder-debug-logging", 5, exact)), 3, None),
         ("builder-passive-hook", hooked(C01System("builder-passive-hook", 5, exact)), 3, None),
+        ("builder-precision-changed-at-run-time", precision_changes(C01System("builder-precision-changed-at-run-time", 2, (0, 12.3456, -2.71828), tracers=False), (5, 2, 0)), 5, None),
     ]
 
 
